@@ -492,16 +492,38 @@ func checkC06(w *World, r *Report) {
 			}
 		}
 	}
-	for _, name := range []string{"Keyword_Q", "String_Q"} {
-		if fn := w.Fn("types", name); fn != nil {
+	// the marker a function tests for: the constant of its own HasPrefix test, or that of a predicate of the
+	// module it asks instead
+	var markerOf func(fn *ssa.Function, depth int) (string, bool)
+	markerOf = func(fn *ssa.Function, depth int) (string, bool) {
+		for _, b := range fn.Blocks {
+			for _, in := range b.Instrs {
+				if c, ok := in.(*ssa.Call); ok && isStringsFn(c, "HasPrefix") {
+					if s, ok := constString(c.Call.Args[1]); ok {
+						return s, true
+					}
+				}
+			}
+		}
+		if depth < 2 {
 			for _, b := range fn.Blocks {
 				for _, in := range b.Instrs {
-					if c, ok := in.(*ssa.Call); ok && isStringsFn(c, "HasPrefix") {
-						if s, ok := constString(c.Call.Args[1]); ok {
-							markers[name] = s
+					if c, ok := in.(*ssa.Call); ok {
+						if g := c.Call.StaticCallee(); g != nil && inModule(g) && len(g.Blocks) > 0 && len(g.Params) == 1 && isBoolResult(g) {
+							if s, ok := markerOf(g, depth+1); ok {
+								return s, true
+							}
 						}
 					}
 				}
+			}
+		}
+		return "", false
+	}
+	for _, name := range []string{"Keyword_Q", "String_Q"} {
+		if fn := w.Fn("types", name); fn != nil {
+			if s, ok := markerOf(fn, 2); ok {
+				markers[name] = s
 			}
 		}
 	}
@@ -517,14 +539,8 @@ func checkC06(w *World, r *Report) {
 		}
 	}
 	if fn := w.builtin("type?"); fn != nil {
-		for _, b := range fn.Blocks {
-			for _, in := range b.Instrs {
-				if c, ok := in.(*ssa.Call); ok && isStringsFn(c, "HasPrefix") {
-					if s, ok := constString(c.Call.Args[1]); ok {
-						markers["type?"] = s
-					}
-				}
-			}
+		if s, ok := markerOf(fn, 0); ok {
+			markers["type?"] = s
 		}
 	}
 	vals := map[string]bool{}
@@ -1790,6 +1806,13 @@ func replAccumulateRule(w *World, r *Report, multi *ssa.Function, rule string) {
 		return
 	}
 	n := 0
+	var replCalls []*ssa.Call
+	if replFn := w.Fn("", "REPL"); replFn != nil {
+		replCalls = staticCallsTo(ex, replFn)
+	}
+	if readFn := w.Fn("", "READ"); readFn != nil {
+		replCalls = append(replCalls, staticCallsTo(ex, readFn)...)
+	}
 	for _, l := range naturalLoops(ex) {
 		blocks := loopBlocks(l)
 		for _, in := range l.header.Instrs {
@@ -1811,15 +1834,39 @@ func replAccumulateRule(w *World, r *Report, multi *ssa.Function, rule string) {
 					return
 				}
 				n++
-				if v == ssa.Value(phi) || isNilConst(v) {
+				if v == ssa.Value(phi) {
 					return
 				}
+				isReset := isNilConst(v)
 				if s2, ok := v.(*ssa.Slice); ok {
 					if al, ok := s2.X.(*ssa.Alloc); ok {
 						if at, ok := al.Type().(*types.Pointer).Elem().Underlying().(*types.Array); ok && at.Len() == 0 {
-							return // []string{}
+							isReset = true // []string{}
 						}
 					}
+				}
+				if isReset {
+					// the lines typed so far are given up only after the reader has seen them in this round and the
+					// classifier did not call them incomplete: dropping them on any other ground (a blank line, a
+					// count) loses the open expression the REPL was asked to keep reading
+					seen := false
+					for _, rc := range replCalls {
+						if rc.Block() == pred || rc.Block().Dominates(pred) {
+							seen = true
+						}
+					}
+					pos := token.NoPos
+					if len(pred.Instrs) > 0 {
+						pos = pred.Instrs[len(pred.Instrs)-1].Pos()
+					}
+					incomplete := false
+					for _, a := range knownConds(pred) {
+						if c, ok := a.v.(*ssa.Call); ok && c.Call.StaticCallee() == multi && a.pol {
+							incomplete = true
+						}
+					}
+					r.check(seen && !incomplete, rule, ex, "input given up", pos, "after the text was read in this round and not classified as incomplete", "the lines typed so far are dropped on a path where the reader has not seen the text in this round, or has just called it incomplete: the REPL stops reading an expression that only lacks its closing brackets, and the next line is read as if nothing had been typed")
+					return
 				}
 				// the lines grew: only under the classifier's "incomplete" or the empty-line test
 				kept := false
